@@ -13,7 +13,7 @@ otherwise the path forks and records the canonical branch fact
     Path.calls   call expressions evaluated (statements and sub-expressions), in order
     Path.env     final environment
 
-Loops are not unrolled: names bound in a loop become opaque (`name%L<line>`)
+Loops are not unrolled: names bound in a loop become opaque (`name__L<line>`)
 and the loop body's calls are recorded once with the loop variable opaque.
 Nothing is executed; no solver is involved - unfoldable tests simply fork.
 """
@@ -318,7 +318,7 @@ class PathEval:
             if isinstance(s, ast.For):
                 self.sub(s.iter, p)
             for nme in bound:
-                p.env[nme] = ast.Name(id=f"{nme}%L{s.lineno}", ctx=ast.Load())
+                p.env[nme] = ast.Name(id=f"{nme}__L{s.lineno}", ctx=ast.Load())
             # record the calls of the body once (loop variable opaque); returns inside end the path there
             n_done = len(self.done)
             inner = self.block(s.body, [p.fork()])
@@ -332,7 +332,7 @@ class PathEval:
                 p.calls = q.calls
                 for k, v in q.env.items():
                     if k in bound or k not in p.env:
-                        p.env[k] = ast.Name(id=f"{k}%L{s.lineno}", ctx=ast.Load())
+                        p.env[k] = ast.Name(id=f"{k}__L{s.lineno}", ctx=ast.Load())
             # stores of the body: kept when every path through the body performs them
             # with the same value, otherwise marked conditional
             allk = set()
@@ -343,7 +343,7 @@ class PathEval:
                 if all(v == vals[0] and v is not None for v in vals):
                     p.stores[k] = qs[0].stores[k]
                 else:
-                    p.stores[k] = ast.Name(id="%conditional", ctx=ast.Load())
+                    p.stores[k] = ast.Name(id="__conditional__", ctx=ast.Load())
             return self.block(s.orelse, out)
         if isinstance(s, ast.With):
             for it in s.items:
@@ -356,7 +356,7 @@ class PathEval:
             out = self.block(s.orelse, out) if s.orelse else out
             return self.block(s.finalbody, out) if s.finalbody else out
         if isinstance(s, (ast.FunctionDef, ast.AsyncFunctionDef, ast.ClassDef)):
-            p.env[s.name] = ast.Name(id=f"{s.name}%def", ctx=ast.Load())
+            p.env[s.name] = ast.Name(id=f"{s.name}__def", ctx=ast.Load())
             return [p]
         if isinstance(s, (ast.Break, ast.Continue)):
             p.ret = BREAK if isinstance(s, ast.Break) else CONTINUE
